@@ -39,7 +39,22 @@ Labels: ``<op>:<feature>:<symptom>`` with symptom in requested-key-missing / eva
 dependency-map, or ``<op>:<feature>:<Exc>@file:function`` when the optimiser itself raises.
 
 Calibration (unchanged tree)
-* see PENDING for what fires on the unchanged tree; oracle corrections are listed at the end of this docstring.
+* genuine, in PENDING (hand-replayed, /verif/findings_proposed/C09.md):
+  - ``fuse(ave_width=inf)`` raises OverflowError (``int(ave_width - 1)``) when a fusion is refused below the top;
+  - ``fuse_linear_task_spec`` on chains whose top key is not str-named stores the fused task under ``None`` and
+    turns the top key into a self-alias (values lost; ``dask.get`` hangs on the cycle).
+* corrections of the check (false alarms / harness faults):
+  - ``Task.fuse`` usage: the harness removed inner tasks of the fused set that a task outside the set still
+    needed (through another inner task) -> "Missing dependency".  The generator now removes an inner task only
+    when no remaining task depends on it (fixpoint).
+  - ``substitute({}, key=new)`` on an ``Alias`` returns the alias with its OLD ``.key``.  The statement speaks about
+    keys of the returned graph and values, not about the ``.key`` attribute; the attribute check was dropped (values
+    are unaffected because graphs are executed by dict key).
+  - a returned graph that is cyclic or has a dangling dependency is reported as ``evaluation-fails`` by a harness
+    walk and is never handed to the executors (``dask.get`` blocks forever on a self-alias; seen as a watchdog hit).
+  - graphs were first emitted in topological dict order only; ``fuse_linear_task_spec``/``fuse_linear`` iterate
+    ``for key in dsk`` so a seeded mutant (fusing through a shared dependency) escaped.  Reversed / random
+    insertion orders were added (generator widened, oracle unchanged).
 """
 from __future__ import annotations
 
@@ -186,19 +201,19 @@ def cases(tier, seed):
                 yield {"k": "small", "space": "exhaustive", "n": 5, "mask": mask, "kinds": _rand_kinds(rng, 5, mask),
                        "style": "str", "subsets": "all", "grid": "quick", "pseed": rng.randrange(2 ** 31)}
     # ---- B: sampled small shapes, other key styles, mixed graphs ---------------------------------
-    for _ in range(700 if not thorough else 9000):
+    for _ in range(700 if not thorough else 8000):
         n = rng.choice((3, 4, 4, 5, 5, 5)) if not thorough else rng.choice((4, 5, 5, 6, 6, 6))
         mask = _rand_mask(rng, n)
         yield {"k": "small", "n": n, "mask": mask, "kinds": _rand_kinds(rng, n, mask), "style": rng.choice(STYLES),
                "subsets": "all" if n <= 4 else "sample", "grid": "sample", "pseed": rng.randrange(2 ** 31),
                "mixed": True}
     # ---- C: random larger programs -----------------------------------------------------------------
-    for _ in range(300 if not thorough else 7000):
+    for _ in range(300 if not thorough else 5000):
         yield {"k": "random", "n": rng.randint(8, 40 if not thorough else 60), "pseed": rng.randrange(2 ** 31),
                "style": rng.choice(STYLES), "subsets": "sample", "grid": "sample", "mixed": rng.random() < 0.5,
                "rich": rng.random() < 0.7}
     # ---- D: borrowed graphs ----------------------------------------------------------------------------
-    for _ in range(100 if not thorough else 1500):
+    for _ in range(100 if not thorough else 1200):
         if rng.random() < 0.65:
             yield {"k": "borrowed", "coll": "array", "expr": rng.choice(BORROWED_ARRAY),
                    "shape": [rng.randint(2, 5), rng.randint(2, 5)], "chunks": [rng.randint(1, 3), rng.randint(1, 3)],
@@ -252,6 +267,15 @@ def _random_program(case):
         if n.kind == "call" and n.fn in "fgh" and rng.random() < 0.3:
             n.args.append(("lit", rng.choice(keys)))
     return prog
+
+
+def _reorder(dsk, order, rng):
+    ks = list(dsk)
+    if order == "reversed":
+        ks.reverse()
+    else:
+        rng.shuffle(ks)
+    return {k: dsk[k] for k in ks}
 
 
 def _program(case):
@@ -573,7 +597,8 @@ def _inline_ops(env, dsk, keys, rng, complete):
     if complete:
         subsets = [list(c) for r in range(0, n + 1) for c in itertools.combinations(keys, r)]
     else:
-        subsets = [[], list(keys)] + [rng.sample(keys, rng.randint(1, min(n, 6))) for _ in range(6)]
+        # inlining many keys of a DAG with shared nodes duplicates sub-tasks exponentially: "all keys" only when small
+        subsets = [[]] + ([list(keys)] if n <= 12 else []) + [rng.sample(keys, rng.randint(1, min(n, 6))) for _ in range(6)]
     i = 0
     for sub in subsets:
         for const in (True, False):
@@ -813,40 +838,50 @@ def _run_program(case, ctx):
     spec = prog.spec()
     env.baseline(legacy, "legacy")
     env.baseline(spec, "task-spec")
-    forms = [("legacy", legacy)]
+    # Insertion order of the graph dict is an input feature (fuse_linear / fuse_linear_task_spec walk ``for key in dsk``):
+    # the complete space runs in topological order and, with a reduced fuse grid, in reversed order; sampled cases
+    # use one seeded random order.
+    exhaustive = bool(case.get("space"))
+    if not exhaustive:
+        legacy, spec = _reorder(legacy, "random", rng), _reorder(spec, "random", rng)
+    forms = [("legacy", legacy, 1)]
+    if exhaustive and len(keys) > 1:
+        forms.append(("legacy", _reorder(legacy, "reversed", rng), 4))
+    specs = [spec] + ([_reorder(spec, "reversed", rng)] if exhaustive and len(keys) > 1 else [])
     if case.get("mixed"):
         bits = rng.getrandbits(len(keys)) | 1
-        mixed = {k: (spec[k] if bits >> i & 1 else legacy[k]) for i, k in enumerate(keys)}
+        mixed = {k: (spec[k] if bits >> keys.index(k) & 1 else legacy[k]) for k in legacy}
         if any(isinstance(v, GraphNode) for v in mixed.values()) and not all(isinstance(v, GraphNode) for v in mixed.values()):
             env.baseline(mixed, "mixed")
-            forms.append(("mixed", mixed))
+            forms.append(("mixed", mixed, 3))
     complete = case.get("subsets") == "all"
     grid = GRIDS.get(case["grid"])
     fast_all = [v[0] for v in legacy.values() if type(v) is tuple and v and isinstance(v[0], G.TFn)]
     if any(n.kind == "call" and (n.kwargs or any(a[0] in ("tuple", "dict", "call") for a in n.args)) for n in prog.nodes):
         fast_all += [G.FUNCS[c] for c in "fgh"] + [tuple, dict, dask.utils.apply]
     subsets = _subsets(keys, case, rng)
+    from dask.optimization import cull
+
     for req in subsets:
         ctx.count("requested_subsets")
         g = grid if grid is not None else rng.sample(GRID_FULL, 5) + rng.sample(CUSTOM_FUSE, 1)
-        for form, dsk in forms:
-            _legacy_ops(env, dsk, req, g if form == "legacy" else g[:6], rng, form, fast_all)
-        # cull also accepts task-spec graphs
-        from dask.optimization import cull
-
-        karg = _karg(req, env.rot)
-        call = {"op": "cull", "keys": _short(karg, 200)}
-        try:
-            out, deps = cull(spec, karg)
-        except Exception as e:  # noqa: BLE001
-            env.raised("cull", "form=task-spec", e, call)
-        else:
-            env.check("cull", "form=task-spec", spec, out, req, deps, call)
-        _spec_ops(env, spec, req, rng)
+        for fi, (form, dsk, stride) in enumerate(forms):
+            _legacy_ops(env, dsk, req, g[fi % stride::stride], rng, form, fast_all)
+        for sp in specs:
+            # cull also accepts task-spec graphs
+            karg = _karg(req, env.rot)
+            call = {"op": "cull", "keys": _short(karg, 200)}
+            try:
+                out, deps = cull(sp, karg)
+            except Exception as e:  # noqa: BLE001
+                env.raised("cull", "form=task-spec", e, call)
+            else:
+                env.check("cull", "form=task-spec", sp, out, req, deps, call)
+            _spec_ops(env, sp, req, rng)
     _inline_ops(env, legacy, keys, rng, complete and len(keys) <= 4)
     _taskfuse_ops(env, spec, keys, rng, complete and len(keys) <= 5)
     _substitute_ops(env, spec, keys, rng, complete)
-    ctx.sample = {"program": env.describe[:8], "subsets": len(subsets), "forms": [f for f, _ in forms]}
+    ctx.sample = {"program": env.describe[:8], "subsets": len(subsets), "forms": [f for f, _, _ in forms]}
 
 
 # ---------------------------------------------------------------------------------------------
@@ -896,7 +931,7 @@ def _build_borrowed(case):
         elif e == "ones_sum":
             c, ref = da.ones(shape, chunks=chunks).sum(), np.ones(shape).sum()
         else:
-            c, ref = da.arange(shape[0] * shape[1], chunks=max(1, chunks[0] * chunks[1])).cumsum(), np.arange(shape[0] * shape[1]).cumsum()
+            c, ref = da.arange(shape[0] * shape[1], chunks=max(1, chunks[0] * chunks[1])).cumsum(axis=0), np.arange(shape[0] * shape[1]).cumsum()
 
         def fin(res):
             def tolist(r):
